@@ -133,7 +133,7 @@ def run(chk, prog):
     # (the limit "bunch length -> 1" is stated in units of the natural bunch length: kick and drift slopes must match, and the position
     # unit must be the natural length for the effective f_s/alpha -- decided under C03 R1, R2, R6; re-evaluated here)
     from .common import reeval
-    reeval(chk, prog, "C03", lambda i: i["rule"] in ("R1", "R2", "R6"), "R5", "R5-rotation-matching", 10)
+    reeval(chk, prog, "C03", lambda i: i["rule"] in ("R1", "R2", "R6", "R9"), "R5", "R5-rotation-matching", 10)
     # ---- R6: bunch length and energy spread are what PhaseSpace::variance reports: second moment of the bunch's own projection, normalised
     # by the bunch's own charge (formulas decided under C09 R2; re-evaluated here)
     from .common import reeval
@@ -144,5 +144,10 @@ def run(chk, prog):
     from . import dimrules
     nrd = dimrules.run(chk, prog, "RD")
     chk.floor("RD-requirements", nrd or 0, 0)
+    # ---- R8: the interpolation adds no diffusion of its own beyond its order -------------------------------------------------------------------------
+    # the n-point weights reproduce every moment below n (sum_k w_k*node_k^m = f^m, m < n); a wrong second moment is an artificial diffusion
+    # applied with every kick and drift, which the damping cannot balance at unit width (decided under C02 R1; re-evaluated here)
+    from .common import reeval
+    reeval(chk, prog, "C02", lambda i: i["rule"] == "R1" and "moment" in i["what"], "R8", "R8-interpolation-moments", 8)
     chk.notes.append("C04: decides that the Fokker-Planck stencils are consistent discretisations of e1*(f + p f' + f'') with matching damping and "
                      "diffusion coefficients for every FPType, and the wiring of e1. Does NOT decide convergence, monotonicity or the stable range.")
